@@ -556,7 +556,7 @@ class Evaluator:
         it = self.ev(s.iter, st) if is_for else None
         if is_for:
             ia = it.single_atom()
-            if ia is not None and ia[0] in ("tuple", "list") and 1 <= len(ia[1]) <= (12 if _cheap_body(s) else 2) and not any(
+            if ia is not None and ia[0] in ("tuple", "list") and 1 <= len(ia[1]) <= (12 if (_cheap_body(s) or _reflects_on_target(s)) else 2) and not any(
                     (isinstance(n, (ast.For, ast.While)) and n is not s) for n in ast.walk(s)):
                 fr.loop_n -= 1
                 return self._unrolled(s, ia[1], st)
@@ -889,7 +889,7 @@ class Evaluator:
             self.emit("localmut", stmt, name=None, how=how, path=tuple(path), value=v, aug=aug, old=root[1])
 
     def _apply_path(self, old, path, how, v):
-        if len(path) == 1 and path[0][0] == "item" and how == "setitem":
+        if len(path) == 1 and path[0][0] == "item" and how == "setitem" and (path[0][1].single_atom() or ("",))[0] != "tuple":
             return atom(("setitem", old, path[0][1], v))
         return atom(("mutated", old, tuple((k, x) for k, x in path), how, v))
 
@@ -980,6 +980,10 @@ class Evaluator:
             v = atom(("undef", name))
             self.emit("undefread", node, name=name, value=v)
             return v
+        if not hasattr(_b, name):
+            # a variable of a lexically enclosing function, with this nested function analysed on its own: an input of it,
+            # like a parameter
+            return atom(("param", name))
         return atom(("global", "builtins." + name))
 
     def _assigned_once(self, mi, name):
@@ -1327,6 +1331,10 @@ class Evaluator:
                 parts.append(const(v.value))
             else:
                 parts.append(self.ev(v.value, st))
+        plain = all(isinstance(v, ast.Constant) or (isinstance(v, ast.FormattedValue) and v.conversion == -1 and v.format_spec is None)
+                    for v in e.values)
+        if plain and all(T.is_pure_const(x) and isinstance(T.const_py(x), str) for x in parts):
+            return const("".join(T.const_py(x) for x in parts))   # f"{'tpr'}_N" is the string "tpr_N"
         return atom(("fstr", tuple(parts)))
 
     def ev_FormattedValue(self, e, st):
@@ -1998,6 +2006,19 @@ def _cheap_body(loop):
                 if nm not in _CHEAP_CALLS:
                     return False
     return True
+
+
+def _reflects_on_target(loop):
+    """the loop variable names an attribute: getattr(obj, <loop variable>) / setattr(...) in the body (a table of attribute names)"""
+    tnames = {n.id for n in ast.walk(loop.target) if isinstance(n, ast.Name)}
+    if len(loop.body) > 6:
+        return False
+    for st_ in loop.body:
+        for n in ast.walk(st_):
+            if isinstance(n, ast.Call) and isinstance(n.func, ast.Name) and n.func.id in ("getattr", "setattr", "hasattr") and len(n.args) >= 2:
+                if any(isinstance(x, ast.Name) and x.id in tnames for x in ast.walk(n.args[1])):
+                    return True
+    return False
 
 
 def _match_as_if(s):
